@@ -23,6 +23,7 @@ def parseOp (ev : List SExp) : Option Op :=
   | .atom "append" :: j :: t :: _ => some (.append j.nat (parseSub t))
   | .atom "appendtask" :: j :: tag :: _ => some (.appendTask j.nat tag.nat)
   | .atom "unsub" :: t :: _ => some (.unsub (parseSub t))
+  | .atom "unsubreapp" :: j :: t :: _ => some (.unsubReapp j.nat (parseSub t))
   | .atom "closed" :: t :: _ => some (.closed (parseSub t))
   | .atom "retain" :: j :: _ => some (.retain j.nat)
   | .atom "size" :: j :: _ => some (.size j.nat)
